@@ -137,6 +137,6 @@ def main(argv):
         for newp, oldp in getattr(f, "renames", {}).items():
             renames[newp] = oldp
     for newp, oldp in sorted(renames.items()):
-        print("NOTE: function %s is analysed as the renamed/moved anchor %s (same signature; tables/fn_names.json)" % (newp, oldp))
+        print("NOTE: %s is analysed as the renamed/moved %s (same signature / type; tables/fn_names.json, field_names.json)" % (newp, oldp))
     return report.finish(args.prop, args.tier, results, t0, level=spec["level"], configs=configs,
                          extra={"renamed_anchors": renames} if renames else None)
